@@ -336,7 +336,7 @@ Proof. exact session_fdt_first_delivers. Qed.
 Print Assumptions C02_session_fdt_first_delivers.
 
 (* FDT late: the packets pkts1 arrive BEFORE the FDT instance and carry EXT_FTI = (oti, L), no EXT_CENC and no
-   close-object flag [C02_session_close_flag_before_fdt_refuted]: they are decoded without FDT and without writer
+   close-object flag [no longer needed: C02_session_close_flag_before_fdt_now_delivered, block D44]: they are decoded without FDT and without writer
    (nothing is logged); the instance then opens the writer and flushes the completed blocks from block 0; pkts2 follow.
    genuine / close_flag_ok / recoverable are those of the whole list pkts1 ++ pkts2.  pkts1 = [] is the theorem above. *)
 Theorem C02_session_fdt_late_delivers : forall E parse_fdt cfg oti content toi md5 now pf id foti d inst pkts1 pkts2,
@@ -396,17 +396,19 @@ Example C02_session_fdt_expired_refuted :
      = ([POk; POk; POk; POk; POk; POk], [], [7], [], delivered_log).
 Proof. exact fdt_expired_refuted. Qed.
 
-(* "no close-object flag before the FDT instance" is needed: the complete in-order transfer (EXT_FTI on every packet,
-   B flag on the last) followed by the FDT instance delivers NOTHING - the decoded object is interrupted for want of a
-   writer and error-listed; the same packets after the FDT instance are delivered *)
-Example C02_session_close_flag_before_fdt_refuted :
+(* "no close-object flag before the FDT instance" is NO LONGER needed (D44 repaired; the variants without that
+   premise are in the block D44 at the end of this file): the complete in-order transfer (EXT_FTI on every packet,
+   B flag on the last) followed by the FDT instance is delivered - a close-object flag is ignored while the object
+   has no writer; before the repair the decoded object was interrupted for want of a writer and error-listed
+   (value ([POk; POk; POk; POk], [], [], [7], [])); the same packets after the FDT instance are delivered as before *)
+Example C02_session_close_flag_before_fdt_now_delivered :
   forallb (genuine_pkt ex_oti ex_content) (map with_fti ex_pkts_inorder) = true
   /\ recoverable ex_oti 5 (map with_fti ex_pkts_inorder) = true
   /\ sess (tx_parse false None) (tx_cfg true false) (map with_fti ex_pkts_inorder ++ [tx_fdt None])
-     = ([POk; POk; POk; POk], [], [], [7], [])
+     = ([POk; POk; POk; POk], [], [7], [], delivered_log)
   /\ sess (tx_parse false None) (tx_cfg true false) (tx_fdt None :: map with_fti ex_pkts_inorder)
      = ([POk; POk; POk; POk], [], [7], [], delivered_log).
-Proof. exact close_flag_before_fdt_refuted. Qed.
+Proof. exact close_flag_before_fdt_now_delivered. Qed.
 
 (* after the delivery: a no-cache object is re-created by any late duplicate (second writer (7,1) opened, also with
    receive-once); with receive-once off a duplicate of symbol (0,0) restarts the reception *)
@@ -1235,3 +1237,128 @@ Example C02_cached_close_flag_early_refuted :
      = ([POk; POk], [], [], [7], [EvBuilder 7 WStore; EvOpen (7, 0%nat) true; EvInterrupted (7, 0%nat)]).
 Proof. exact cached_close_flag_early_refuted. Qed.
 (* ===== end block: C02Cache ===== *)
+
+(* ===== block: D44 ===== *)
+(* ---------------- a close-object flag BEFORE the FDT instance is harmless (defect D44, repaired) ----------------
+   ObjectReceiver::push_to_block now interrupts a Receiving object on a packet carrying the close-object flag only when the
+   object already has a writer (Model/ObjRecv.v, push_to_block).  Before any FDT instance has been attached there is no
+   writer: the flag is ignored, the symbols keep being decoded in memory, and the instance that arrives later opens the
+   writer and flushes the completed blocks.  So the premise "no close-object flag among the packets received before the FDT
+   instance" of the three late-FDT theorems above is dropped: pkts1 need only carry EXT_FTI = (oti, L) and no EXT_CENC;
+   the flag premise shrinks to the packets that FOLLOW the instance,
+     close_flag_ok_after rec pkts1 pkts2  (rec = recoverable / rs_recoverable / fq_recoverable oti L):
+   a flagged packet of pkts2 comes only once pkts1 and the packets of pkts2 up to and including it are recoverable.  It
+   follows from close_flag_ok of pkts1 ++ pkts2 [C02_close_flag_after_of_whole], holds when pkts2 carries no flag, and when
+   only its last packet does and the whole is recoverable [C02_close_flag_after_basics]; the old theorems are corollaries. *)
+Theorem C02_close_flag_after_statement : forall (rec : list apkt -> bool) pkts1 pkts2,
+  close_flag_ok_after rec pkts1 pkts2 <->
+  (forall pre p post, pkts2 = pre ++ p :: post -> a_close_obj p = true -> rec (pkts1 ++ pre ++ [p]) = true).
+Proof. exact close_flag_after_statement. Qed.
+Print Assumptions C02_close_flag_after_statement.
+
+Theorem C02_close_flag_after_of_whole : forall oti L pkts1 pkts2,
+  (close_flag_ok oti L (pkts1 ++ pkts2) -> close_flag_ok_after (recoverable oti L) pkts1 pkts2)
+  /\ (rs_close_flag_ok oti L (pkts1 ++ pkts2) -> close_flag_ok_after (rs_recoverable oti L) pkts1 pkts2)
+  /\ (fq_close_flag_ok oti L (pkts1 ++ pkts2) -> close_flag_ok_after (fq_recoverable oti L) pkts1 pkts2).
+Proof. exact close_flag_after_of_whole_all. Qed.
+Print Assumptions C02_close_flag_after_of_whole.
+
+Theorem C02_close_flag_after_basics : forall (rec : list apkt -> bool) pkts1,
+  (forall pkts2, Forall (fun p => a_close_obj p = false) pkts2 -> close_flag_ok_after rec pkts1 pkts2)
+  /\ (forall body lst, Forall (fun q => a_close_obj q = false) body -> rec (pkts1 ++ body ++ [lst]) = true ->
+                       close_flag_ok_after rec pkts1 (body ++ [lst])).
+Proof. exact close_flag_after_basics. Qed.
+Print Assumptions C02_close_flag_after_basics.
+
+Theorem C02_session_fdt_late_delivers_any_flag_before_fdt :
+  forall E parse_fdt cfg oti content toi md5 now pf id foti d inst pkts1 pkts2,
+  let L := lenN_ content in
+  nocode_ok oti L -> toi <> 0 ->
+  fdt_pkt_ok pf id foti d -> parse_fdt d = Some inst -> fdt_live cfg inst pf now ->
+  fdt_entry_for (fi_files inst) (fi_oti inst) toi oti L md5 ->
+  writer_accepts E toi -> writes_succeed E toi -> md5_good E content md5 ->
+  L <= cf_max_cache cfg -> nb_blocks_of oti L <= 4097 ->
+  Forall (fun p => a_toi p = toi) (pkts1 ++ pkts2) ->
+  Forall (fun p => genuine_pkt oti content p = true) (pkts1 ++ pkts2) ->
+  Forall (fun p => a_oti p = Some (oti, L) /\ a_cenc p = None) pkts1 ->
+  close_flag_ok_after (recoverable oti L) pkts1 pkts2 ->
+  recoverable oti L (pkts1 ++ pkts2) = true ->
+  let '(_, r, c) := recv_run E parse_fdt cfg recv0 (map (fun p => RvPush p now) (pkts1 ++ pf :: pkts2)) ctx0 in
+  session_delivered cfg inst content toi r c.
+Proof. exact session_fdt_late_delivers_any_flag_before_fdt. Qed.
+Print Assumptions C02_session_fdt_late_delivers_any_flag_before_fdt.
+
+Theorem C02_rs_session_fdt_late_delivers_any_flag_before_fdt :
+  forall E parse_fdt cfg oti content rep toi md5 now pf id foti d inst pkts1 pkts2,
+  let L := lenN_ content in
+  rs_scheme_ok oti L -> rs_blocks_ok oti L -> toi <> 0 ->
+  fdt_pkt_ok pf id foti d -> parse_fdt d = Some inst -> fdt_live cfg inst pf now ->
+  fdt_entry_for (fi_files inst) (fi_oti inst) toi oti L md5 ->
+  writer_accepts E toi -> writes_succeed E toi -> md5_good E content md5 ->
+  rs_oracle_mds E oti content rep toi ->
+  rs_mem_need oti L <= cf_max_cache cfg -> nb_blocks_of oti L <= 4097 ->
+  Forall (fun p => a_toi p = toi) (pkts1 ++ pkts2) ->
+  Forall (fun p => rs_genuine_pkt oti content rep p = true) (pkts1 ++ pkts2) ->
+  Forall (fun p => a_oti p = Some (oti, L) /\ a_cenc p = None) pkts1 ->
+  close_flag_ok_after (rs_recoverable oti L) pkts1 pkts2 ->
+  rs_recoverable oti L (pkts1 ++ pkts2) = true ->
+  let '(_, r, c) := recv_run E parse_fdt cfg recv0 (map (fun p => RvPush p now) (pkts1 ++ pf :: pkts2)) ctx0 in
+  session_delivered cfg inst content toi r c.
+Proof. exact rs_session_fdt_late_delivers_any_flag_before_fdt. Qed.
+Print Assumptions C02_rs_session_fdt_late_delivers_any_flag_before_fdt.
+
+Theorem C02_fq_session_fdt_late_delivers_any_flag_before_fdt :
+  forall E parse_fdt cfg oti content enc toi md5 now pf id foti d inst pkts1 pkts2,
+  let L := lenN_ content in
+  fq_scheme_ok oti L -> fq_blocks_ok oti L -> toi <> 0 ->
+  fdt_pkt_ok pf id foti d -> parse_fdt d = Some inst -> fdt_live cfg inst pf now ->
+  fdt_entry_for (fi_files inst) (fi_oti inst) toi oti L md5 ->
+  writer_accepts E toi -> writes_succeed E toi -> md5_good E content md5 ->
+  fq_oracle_sound E oti content enc toi -> fq_oracle_complete E oti content enc toi ->
+  L <= cf_max_cache cfg -> nb_blocks_of oti L <= 4097 ->
+  Forall (fun p => a_toi p = toi) (pkts1 ++ pkts2) ->
+  Forall (fun p => fq_genuine_pkt oti content enc p = true) (pkts1 ++ pkts2) ->
+  Forall (fun p => fq_sized_pkt oti p = true) (pkts1 ++ pkts2) ->
+  Forall (fun p => a_oti p = Some (oti, L) /\ a_cenc p = None) pkts1 ->
+  close_flag_ok_after (fq_recoverable oti L) pkts1 pkts2 ->
+  fq_recoverable oti L (pkts1 ++ pkts2) = true ->
+  let '(_, r, c) := recv_run E parse_fdt cfg recv0 (map (fun p => RvPush p now) (pkts1 ++ pf :: pkts2)) ctx0 in
+  session_delivered cfg inst content toi r c.
+Proof. exact fq_session_fdt_late_delivers_any_flag_before_fdt. Qed.
+Print Assumptions C02_fq_session_fdt_late_delivers_any_flag_before_fdt.
+
+(* non-vacuity.  No-Code: the whole in-order transfer of ex_content with EXT_FTI on every packet and the flag on its last
+   packet, then the FDT packet: delivered, by computation [C02_session_close_flag_before_fdt_now_delivered above] and by the
+   theorem.  Reed-Solomon (XOR toy code): the whole in-order LAST transfer - source and parity symbols, flag on the last
+   packet - before the FDT packet; and the flagged packet ALONE before the FDT packet, the rest after it: delivered both
+   times, by computation and (first run) by the theorem. *)
+Example C02_close_flag_before_fdt_by_theorem :
+  map a_close_obj (map with_fti ex_pkts_inorder) = [false; false; true]
+  /\ let '(_, r, c) := recv_run env_ok (tx_parse false None) (tx_cfg true false) recv0
+                               (map (fun p => RvPush p 100%Z) (map with_fti ex_pkts_inorder ++ tx_fdt None :: [])) ctx0 in
+     session_delivered (tx_cfg true false) (tx_inst false None) ex_content 7 r c.
+Proof. exact close_flag_before_fdt_by_theorem. Qed.
+
+Example C02_rs_close_flag_before_fdt_now_delivered :
+  forallb (rs_genuine_pkt exr_oti exr_content exr_rep) exr_last_transfer = true
+  /\ map a_close_obj exr_last_transfer = [false; false; false; false; true]
+  /\ sess_env env_xor (txr_parse exr_oti 5) (tx_cfg true false) (exr_last_transfer ++ [tx_fdt None])
+     = ([POk; POk; POk; POk; POk; POk], [], [7], [], delivered_log)
+  /\ sess_env env_xor (txr_parse exr_oti 5) (tx_cfg true false)
+              (with_fti_of exr_oti 5 (rs_pkt 7 1 1 true [5; 0]) :: tx_fdt None :: firstn 4 exr_last_transfer)
+     = ([POk; POk; POk; POk; POk; POk], [], [7], [], delivered_log).
+Proof. exact rs_close_flag_before_fdt_now_delivered. Qed.
+
+Example C02_rs_close_flag_before_fdt_by_theorem :
+  let '(_, r, c) := recv_run env_xor (txr_parse exr_oti 5) (tx_cfg true false) recv0
+                             (map (fun p => RvPush p 100%Z) (exr_last_transfer ++ tx_fdt None :: [])) ctx0 in
+  session_delivered (tx_cfg true false) (txr_inst exr_oti 5) exr_content 7 r c.
+Proof. exact rs_close_flag_before_fdt_by_theorem. Qed.
+
+(* the flag still interrupts an object that HAS a writer when it comes before the object is recoverable: the premise on
+   the packets that follow the instance is needed as before (FDT first, then the flagged last source packet alone) *)
+Example C02_close_flag_after_fdt_still_interrupts :
+  sess (tx_parse false None) (tx_cfg true false) (tx_fdt None :: [src_pkt 7 1 0 true [5]])
+  = ([POk; POk], [], [], [7], [EvBuilder 7 WStore; EvOpen (7, 0%nat) true; EvInterrupted (7, 0%nat)]).
+Proof. vm_compute. reflexivity. Qed.
+(* ===== end block: D44 ===== *)
